@@ -1,11 +1,12 @@
-\* quick tier, design-level model checking, static half: Model = Expected and Model |= Judge from every static
-\* case (HMax 4) and 1500 random draws of the product space
+\* quick tier, design-level model checking, static half: Model = Expected and Model |= Judge from the static cases (Singles of
+\* kind node with HMax 4 - the Model treats the kinds alike -, Pairs with version 3, all small families) and 500 random draws;
+\* the thorough tier checks all kinds, Pairs {2,3} and 3000 draws
 CONSTANTS
   HMax = 4
-  SingleKinds = {"node", "way", "relation"}
+  SingleKinds = {"node"}
   BothVis = FALSE
-  PairVers = {2, 3}
-  NRandom = 1500
+  PairVers = {3}
+  NRandom = 500
   BuildMax = 0
   BuildIds = {1, 2, 3}
   WithFamilies = TRUE
